@@ -15,6 +15,8 @@ import (
 	"sync"
 	"time"
 
+	"gopkg.in/yaml.v3"
+
 	"github.com/elastic/go-libaudit/v2/aucoalesce"
 	"github.com/elastic/go-libaudit/v2/auparse"
 )
@@ -466,6 +468,17 @@ func coalesceIsoCmd(args []string) int {
 			return g
 		}
 		g, _ := randomGroup(rng)
+		// all message groups are in C15's domain, also odd ones: an EOE record that is not
+		// last (or several), a record given twice
+		if rng.Intn(4) == 0 && len(g) > 0 {
+			for n := 1 + rng.Intn(2); n > 0; n-- {
+				i := rng.Intn(len(g) + 1)
+				g = append(g[:i], append([]recSpec{{1320, ""}}, g[i:]...)...)
+			}
+		}
+		if rng.Intn(8) == 0 && len(g) > 1 {
+			g = append(g, g[rng.Intn(len(g))])
+		}
 		return g
 	}
 
@@ -523,6 +536,79 @@ func coalesceIsoCmd(args []string) int {
 			stats["operations"]++
 		}
 		stats["pools"]++
+	}
+
+	// every record type the normalisation table names, as a single record and ahead of SYSCALL
+	// records of different syscalls: events built from normalisations that share table entries
+	normTypes := []string{}
+	if data, err := os.ReadFile(filepath.Join(*repo, "aucoalesce", "normalizations.yaml")); err == nil {
+		var doc struct {
+			Normalizations []map[string]interface{} `yaml:"normalizations"`
+		}
+		if yaml.Unmarshal(data, &doc) == nil {
+			for _, n := range doc.Normalizations {
+				switch v := n["record_types"].(type) {
+				case string:
+					normTypes = append(normTypes, v)
+				case []interface{}:
+					for _, e := range v {
+						normTypes = append(normTypes, fmt.Sprint(e))
+					}
+				}
+			}
+		}
+	}
+	sweepSyscalls := []string{"open", "execve", "connect", "kill", "setuid", "mount", "nosuch"}
+	for _, tn := range normTypes {
+		t, err := auparse.GetAuditMessageType(tn)
+		if err != nil {
+			continue
+		}
+		body := fmt.Sprintf(`pid=%d uid=0 auid=1000 ses=3 subj=u:r:t:s0 msg='op=x id=5 acct="bob" exe="/usr/sbin/useradd" hostname=h addr=10.0.0.1 terminal=pts/0 res=success'`, 100+rng.Intn(900))
+		trace++
+		w.write(map[string]interface{}{"k": "reset", "trace": trace})
+		var pool [][]*auparse.AuditMessage
+		pool = append(pool, mkMsgs([]recSpec{{int(t), body}}, 1490137971, 11, 500))
+		for i := 0; i < 3; i++ {
+			sc := sweepSyscalls[rng.Intn(len(sweepSyscalls))]
+			pool = append(pool, mkMsgs([]recSpec{{int(t), body}, {1300, syscallBody(rng, sc, 0)}}, 1490137971, 11, uint32(501+i)))
+		}
+		var events []*aucoalesce.Event
+		order := []int{0, 1, 2, 3, 1, 0, 2}
+		for step, g := range order {
+			ret := "event"
+			func() {
+				defer func() {
+					if p := recover(); p != nil {
+						ret = "panic"
+					}
+				}()
+				ev, err := aucoalesce.CoalesceMessages(pool[g])
+				if err != nil || ev == nil {
+					ret = "err"
+				}
+				events = append(events, ev)
+				if step == 4 && ev != nil {
+					aucoalesce.ResolveIDsFromCaches(ev, users, groups)
+				}
+			}()
+			md := map[string]string{}
+			for gi := range pool {
+				md[strconv.Itoa(gi+1)] = msgDigest(pool[gi])
+			}
+			ed := []string{}
+			for _, e := range events {
+				ed = append(ed, eventDigest(e))
+			}
+			op := "coalesce"
+			if step == 4 {
+				op = "coalesce" // the event is resolved right away; it is new, so nothing older may change
+			}
+			w.write(map[string]interface{}{"k": "iso", "trace": trace, "op": op, "group": g + 1 + 100*boolInt(step == 4), "event": len(events), "ret": ret,
+				"msgs": md, "events": ed})
+			stats["operations"]++
+		}
+		stats["table_sweep_pools"]++
 	}
 
 	if *behs != "" {
@@ -588,6 +674,13 @@ func coalesceIsoCmd(args []string) int {
 	}
 	w.close()
 	printJSON(map[string]interface{}{"stats": stats})
+	return 0
+}
+
+func boolInt(b bool) int {
+	if b {
+		return 1
+	}
 	return 0
 }
 
